@@ -85,7 +85,23 @@ class MBTilesCache(TileCacheBase):
 
     def _initialize_mbtile(self):
         log.info('initializing MBTile file %s', self.mbtile_file)
-        with sqlite3.connect(self.mbtile_file) as db:
+        # create the tables in a temporary file and move it into place:
+        # other processes only check for the existence of the file
+        # and would find a database without tables
+        init_file = self.mbtile_file + '.tmp-init'
+        if os.path.exists(init_file):
+            os.unlink(init_file)
+        self._create_tables(init_file)
+        os.rename(init_file, self.mbtile_file)
+
+        if self.file_permissions:
+            permission = int(self.file_permissions, base=8)
+            log.info("setting file permissions on MBTile file: ", permission)
+            os.chmod(self.mbtile_file, permission)
+
+    def _create_tables(self, mbtile_file):
+        db = sqlite3.connect(mbtile_file)
+        try:
             if self.wal:
                 db.execute('PRAGMA journal_mode=wal')
 
@@ -114,11 +130,8 @@ class MBTilesCache(TileCacheBase):
                     (zoom_level, tile_column, tile_row);
             """)
             db.commit()
-
-        if self.file_permissions:
-            permission = int(self.file_permissions, base=8)
-            log.info("setting file permissions on MBTile file: ", permission)
-            os.chmod(self.mbtile_file, permission)
+        finally:
+            db.close()
 
     def update_metadata(self, name='', description='', version=1, overlay=True, format='png'):
         self.db.execute("""
